@@ -8,6 +8,7 @@ import (
 	"os"
 	"os/exec"
 	"path/filepath"
+	"runtime/debug"
 	"strings"
 	"time"
 )
@@ -285,7 +286,7 @@ func (t *Task) Execute() {
 		}
 		t.Auditf("Executing: Custom Go function with outputs: %s", outputsStr)
 		verifTask("task.cmd_start", t, t.cores)
-		t.CustomExecute(t)
+		t.runCustomExecute()
 		verifTask("task.cmd_done", t, t.cores)
 		t.Auditf("Finished: Custom Go function with outputs: %s", outputsStr)
 	} else {
@@ -363,6 +364,22 @@ func (t *Task) createDirs() error {
 	}
 
 	return nil
+}
+
+// runCustomExecute runs the custom Go function of the task. A panic in that
+// function is a failure of the task, and ends the workflow like a failing
+// shell command does. If the panic was left to the Go runtime, the deferred
+// closing of t.Done in Execute would let the process collect the unfinished
+// task while the runtime is still unwinding, so that a workflow with nothing
+// else left to do could finish, with exit status 0, before the runtime has
+// terminated the program.
+func (t *Task) runCustomExecute() {
+	defer func() {
+		if r := recover(); r != nil {
+			t.Failf("Custom Go function panicked: %v\n%s", r, debug.Stack())
+		}
+	}()
+	t.CustomExecute(t)
 }
 
 // executeCommand executes the shell command cmd via bash
